@@ -9,6 +9,7 @@ import (
 	"fmt"
 	"go/types"
 	"os"
+	"regexp"
 	"runtime/debug"
 	"sort"
 	"strings"
@@ -83,7 +84,15 @@ func main() {
 		for _, id := range ids {
 			sp := props.Registry[id]
 			fmt.Printf("### %s %s — claimed, `other`\n\n", id, sp.Title)
-			fmt.Printf("**Decided.** %s\n\n", sp.Meta.Explanation)
+			intro, items := splitRules(id, sp.Meta.Explanation)
+			if intro == "" {
+				intro = "Structural necessary conditions of the property, one item per rule."
+			}
+			fmt.Printf("**Decided.** %s\n\n", intro)
+			for _, it := range items {
+				fmt.Printf("- %s\n", it)
+			}
+			fmt.Println()
 			fmt.Printf("**Not decided (✘).** %s\n\n", sp.Meta.NotDecided)
 			if len(sp.Meta.Assumptions) > 0 {
 				fmt.Printf("**Assumes.** %s\n\n", strings.Join(sp.Meta.Assumptions, "; "))
@@ -222,4 +231,71 @@ func loadWithPosex(repo string, overlay map[string][]byte) (p *core.Prog, droppe
 		return p, false
 	}
 	return core.Load(repo, nil), true
+}
+
+// splitRules cuts the explanation of a property into an introduction and one item per rule (Rnn.k ...), sorted by
+// rule number; a clause added later for an existing rule ("R03.3 also ...") follows that rule's first item.
+func splitRules(id, text string) (string, []string) {
+	re := regexp.MustCompile(`(^|[.)] )(R` + id[1:] + `\.\d+)`)
+	locs := re.FindAllStringSubmatchIndex(text, -1)
+	if len(locs) == 0 {
+		return text, nil
+	}
+	type item struct {
+		k    int
+		ord  int
+		text string
+	}
+	var items []item
+	var intro []string
+	cut := func(from, to int) string { return strings.TrimSpace(text[from:to]) }
+	if s := cut(0, locs[0][4]); s != "" {
+		intro = append(intro, s)
+	}
+	for i, l := range locs {
+		end := len(text)
+		if i+1 < len(locs) {
+			end = locs[i+1][4]
+		}
+		seg := cut(l[4], end)
+		var k int
+		fmt.Sscanf(text[l[4]:l[5]][len("R"+id[1:]+"."):], "%d", &k)
+		// a sentence without a rule number that follows a rule stays with it; an unnumbered general sentence at the
+		// end of an inserted block ("Decides ...", "Structural ...") goes to the introduction
+		for _, marker := range []string{" Structural necessary conditions", " Structural conditions", " Decides ", " Two rejection clauses", " Call-site and dominance rules", " Lockset and routing rules", " Clauses of the FIFO"} {
+			if j := strings.Index(seg, "."+marker); j >= 0 {
+				rest := strings.TrimSpace(seg[j+1:])
+				// the general sentence runs to its own full stop
+				if e := strings.Index(rest, ". "); e >= 0 {
+					intro = append(intro, rest[:e+1])
+					seg = strings.TrimSpace(seg[:j+1] + " " + rest[e+1:])
+				} else {
+					intro = append(intro, rest)
+					seg = seg[:j+1]
+				}
+			}
+		}
+		items = append(items, item{k, i, seg})
+	}
+	sort.SliceStable(items, func(a, b int) bool {
+		if items[a].k != items[b].k {
+			return items[a].k < items[b].k
+		}
+		la, lb := later.MatchString(items[a].text), later.MatchString(items[b].text)
+		if la != lb {
+			return lb // the original statement of a rule first, clauses added later behind it
+		}
+		return items[a].ord < items[b].ord
+	})
+	var out []string
+	for _, it := range items {
+		out = append(out, it.text)
+	}
+	return strings.Join(intro, " "), out
+}
+
+var later = regexp.MustCompile(`^R\d+\.\d+ (also|\(second clause\)|\(clause\)|\(String\))`)
+
+func init() {
+	_ = later
 }
